@@ -355,6 +355,22 @@ class Interp:
             return self.const(ca // cb)
         if cb is not None and cb > 0 and cb & (cb - 1) == 0:
             return self.i_shr_const(a, cb.bit_length() - 1)
+        if cb is None and not b.signed:
+            # divisor one-hot by construction (checked as a tautology): a // 2**k == a >> k (floor, also for negative a)
+            B = self.B
+            none, one = 1, 0
+            for bit in b.bits:
+                one = B.OR(B.AND(one, B.NOT(bit)), B.AND(none, bit))
+                none = B.AND(none, B.NOT(bit))
+            if one == 1 or B.AND(getattr(self, 'op_cond', 1), B.NOT(one)) == 0:
+                res = None
+                for k, bit in enumerate(b.bits):
+                    if bit == 0:
+                        continue
+                    sh = self.i_shr_const(a, k)
+                    res = sh if res is None else self.i_ite(bit, sh, res)
+                if res is not None:
+                    return res
         raise Unsupported('floor division by a non power of two')
 
     def i_eq(self, a, b):
@@ -700,6 +716,23 @@ class Interp:
             return V(('str', '<fstring>'))
         if isinstance(e, ast.List):
             return V(Tup([self._eval(x, st) for x in e.elts]))
+        if isinstance(e, (ast.GeneratorExp, ast.ListComp)) and len(e.generators) == 1 and not e.generators[0].ifs \
+                and isinstance(e.generators[0].target, ast.Name):
+            # [f(k) for k in <constant iterable>]: unrolled
+            it = self._eval(e.generators[0].iter, st).single()
+            if isinstance(it, Tup) and len(it.items) <= 256:
+                out = []
+                name = e.generators[0].target.id
+                saved = st.env.get(name)
+                for item in it.items:
+                    st.env[name] = item
+                    out.append(self._eval(e.elt, st))
+                if saved is None:
+                    st.env.pop(name, None)
+                else:
+                    st.env[name] = saved
+                return V(Tup(out))
+            raise Unsupported('comprehension over a non-constant iterable')
         raise Unsupported('expression %s' % type(e).__name__)
 
     def need_int(self, p):
@@ -857,7 +890,10 @@ class Interp:
                 rr = self.repo.resolve_name(m, node.func.id)
                 if rr and rr[0] == 'class':
                     return V(('obj', 'module:%s' % ast.unparse(node.func), rr[1].name))
-            if isinstance(node, (ast.Dict, ast.Tuple, ast.List)):
+            if isinstance(node, ast.Call) and isinstance(node.func, ast.Name) and node.func.id in ('tuple', 'list') and len(node.args) == 1 \
+                    and isinstance(node.args[0], (ast.GeneratorExp, ast.ListComp)):
+                node = node.args[0]
+            if isinstance(node, (ast.Dict, ast.Tuple, ast.List, ast.GeneratorExp, ast.ListComp)):
                 # immutable module-level table (dict / tuple of literals, enum members or classes): evaluated in its module
                 saved = self.cur_func
                 try:
